@@ -282,7 +282,8 @@ def r2_done(ctx, report, model, ab, classes, it):
 
 def size_form(f):
     """classification of the value VectorParam*.get_item_size returns"""
-    rets = [ast.unparse(n.value).replace(' ', '') for n in ast.walk(f.node) if isinstance(n, ast.Return) and n.value is not None]
+    from ..astutil import returned
+    rets = [ast.unparse(v).replace(' ', '') for v in returned(f.node)]
     if rets == ['self.item_size']:
         return 'fixed:item_size'
     if rets == ['1']:
